@@ -33,6 +33,7 @@ func (m *Mutex) Lock() {
 		x.Block(m, "Lock-wait")
 	}
 	m.held = true
+	x.Acquired(m)
 }
 
 func (m *Mutex) TryLock() bool {
@@ -79,6 +80,7 @@ func (m *RWMutex) Lock() {
 		x.Block(m, "Lock-wait")
 	}
 	m.writer = true
+	x.Acquired(m)
 }
 
 func (m *RWMutex) Unlock() {
@@ -106,6 +108,7 @@ func (m *RWMutex) RLock() {
 		x.Block(m, "RLock-wait")
 	}
 	m.readers++
+	x.Acquired(m)
 }
 
 func (m *RWMutex) RUnlock() {
